@@ -147,6 +147,10 @@ class INSObserver(StandardObserver):
         def update_history(ns):
             r = orig_hist(ns)
             crit = criteria_facts(ns)
+            if getattr(obs, "scripted_criteria", False):
+                # scripted replay (SimImportanceSampler.tla): the criterion VALUES are the script's, only the
+                # "compared values are the reported ones" facts remain meaningful
+                crit = {k: (v if k in ("reported_ok", "compared_is_reported") else True) for k, v in crit.items()}
             obs.em.emit(
                 "ins_iter", tr=obs.store_state(ns, ns.training_samples),
                 iid=obs.store_state(ns, ns.iid_samples),
